@@ -109,6 +109,8 @@ def install(I):
         if s.fields["closed"]:
             i.raise_py("ValueError", "I/O operation on closed file.")
         i.st.event("write", s, a[1])
+        if type(a[1]).__name__ == "SStr":
+            return i.st.fresh_sv("nwritten", "int")
         return i.len_(a[1])
 
     Stream.ns["closed"] = PropertyV(Builtin("Stream.closed", lambda i, a, k: a[0].fields["closed"]))
@@ -117,10 +119,29 @@ def install(I):
     E["io.StringIO"] = StringIO
 
     def _sio_new(i, cls, a, k):
-        s = Obj(StringIO, {"path": None, "mode": "w+", "closed": False, "owned": False, "init": a[0] if a else ""}, tag="stream")
+        s = Obj(StringIO, {"path": None, "mode": "w+", "closed": False, "owned": False, "init": a[0] if a else "", "cursor": None}, tag="stream")
         i.st.event("stringio", s)
         return s
     StringIO.ns["__pyvc_new__"] = _sio_new
+
+    def _sio_next(i, a, k):
+        from . import textmodel
+        s = a[0]
+        if s.fields["closed"]:
+            i.raise_py("ValueError", "I/O operation on closed file.")
+        if s.fields.get("cursor") is None:
+            content = _sio_getvalue(i, [s], {})
+            s.fields["lines"] = textmodel.lines(content) if not isinstance(content, Opaque) else None
+            if s.fields["lines"] is None:
+                raise Unsupported("iterating a stream with opaque content")
+            s.fields["cursor"] = 0
+        n = s.fields["cursor"]
+        if n >= len(s.fields["lines"]):
+            i.raise_py("StopIteration")
+        s.fields["cursor"] = n + 1
+        return s.fields["lines"][n]
+    StringIO.ns["__next__"] = Builtin("StringIO.__next__", _sio_next)
+    StringIO.ns["__iter__"] = Builtin("StringIO.__iter__", lambda i, a, k: a[0])
 
     @meth(StringIO, "getvalue")
     def _sio_getvalue(i, a, k):
@@ -131,10 +152,17 @@ def install(I):
                 parts.append(ev[2])
             elif ev[0] == "call-writes" and ev[1] is s:
                 parts.append(ev[2])
-        if all(pyclass_kind(p) == "str" for p in parts):
+        if all(pyclass_kind(p) in ("str", "SStr") for p in parts):
             return i.str_concat(parts) if parts else ""
         return Opaque("text", tuple(parts))
 
+    RePat = mkcls("re.Pattern")
+
+    def _re_compile(i, a, k):
+        from . import textmodel
+        return Obj(RePat, {"model": textmodel.ReModel(a[0])}, tag="repattern")
+    E["re.compile"] = Builtin("re.compile", _re_compile)
+    RePat.ns["match"] = Builtin("Pattern.match", lambda i, a, k: a[0].fields["model"].match(i, a[1]))
     E["io.UnsupportedOperation"] = ns["UnsupportedOperation"]
     E["io.IOBase"] = Stream
     E["typing.IO"] = Stream
@@ -169,6 +197,8 @@ def install(I):
     E["weakref.ReferenceType"] = WR
     I.WeakrefCls = WR
     E["attrs.field"] = Builtin("attrs.field", lambda i, a, k: (_ for _ in ()).throw(Unsupported("attrs.field outside class body")))
+    E["dataclasses.field"] = E["attrs.field"]
+    E["dataclasses.dataclass"] = Builtin("dataclass", lambda i, a, k: a[0] if a else Builtin("dataclass.deco", lambda i2, a2, k2: a2[0]))
     E["attrs.Factory"] = Builtin("attrs.Factory", lambda i, a, k: Obj(obj, {"factory": a[0]}, tag="attrs.Factory"))
     E["attrs.define"] = Builtin("attrs.define", lambda i, a, k: a[0] if a else Builtin("define.deco", lambda i2, a2, k2: a2[0]))
     E["attr.define"] = E["attrs.define"]
@@ -192,6 +222,19 @@ def install(I):
     chain_cls.ns["__pyvc_new__"] = lambda i, cls, a, k: _chain(i, a, k)
     chain_cls.ns["from_iterable"] = StaticMethodV(Builtin("chain.from_iterable", _chain_from_iterable))
     E["itertools.chain"] = chain_cls
+    Bidict = mkcls("bidict")
+
+    def _bidict_new(i, cls, a, k):
+        d = a[0] if a else DictV()
+        inv = DictV([(v, kk) for kk, v in zip(d.keys, d.vals)])
+        o = Obj(Bidict, {"d": d, "inverse": None}, tag="bidict")
+        o.fields["inverse"] = Obj(Bidict, {"d": inv, "inverse": o}, tag="bidict")
+        return o
+    Bidict.ns["__pyvc_new__"] = _bidict_new
+    Bidict.ns["__getitem__"] = Builtin("bidict.__getitem__", lambda i, a, k: i.getitem(a[0].fields["d"], a[1]), "bidict: bijection of the literal given in the source")
+    Bidict.ns["__contains__"] = Builtin("bidict.__contains__", lambda i, a, k: i.wrap_bool(i.contains(a[0].fields["d"], a[1])))
+    Bidict.ns["__iter__"] = Builtin("bidict.__iter__", lambda i, a, k: IterV(i.iterate(a[0].fields["d"])))
+    E["bidict.bidict"] = Bidict
     E["atexit.register"] = Builtin("atexit.register", lambda i, a, k: i.st.event("atexit", a[0]))
     def _shallow_copy(i, a, k):
         x = a[0]
